@@ -362,6 +362,11 @@ def run(tier, seed):
         collect(v)
     finally:
         POOL.shutdown(wait=True)
+    # hierarchies whose bottom is the thread-bound main queue (Frames.tla's rule is the same: nearest queue in the chain
+    # down to the bottom): keys set on the main queue and on lanes targeting it, read from items submitted through every
+    # path while the main queue is driven as a runloop and after dispatch_main() (harness/drv_mainq.c)
+    from props.C02 import main_queue
+    main_queue(v, PROP, seed, 2 if tier == "quick" else 8)
     return v.finish()
 
 
